@@ -274,7 +274,8 @@ func (pf *parserFacts) proveRange(v ssa.Value, at *ssa.BasicBlock, lo, hi int64,
 		init = bound{lo: tl, hi: th, hasLo: true, hasHi: true}
 	}
 	b := boundsFrom(atoms, t.String(), init)
-	if b.hasLo && b.hasHi && b.lo >= lo && b.hi <= hi {
+	const inf = int64(1) << 61
+	if (b.hasLo && b.lo >= lo || lo <= -inf) && (b.hasHi && b.hi <= hi || hi >= inf) {
 		return true, fmt.Sprintf("dominating guards give %s in %s", t, b)
 	}
 	return false, fmt.Sprintf("%s is only known to be in %s", t, b)
